@@ -8,7 +8,9 @@ Stage C: lockstep correspondence on real TunnelCommunity / HiddenTunnelCommunity
          comparing actions and successor routing tables.  Faults: every header byte and sampled body bytes of
          an in-flight cell altered on every link in both directions, bodies spliced across circuits and
          directions, cells injected under fresh keys / unknown ids.
-Oracle : (independent of the model) bytes handed to the exit socket equal the bytes sent and go to the given
+Oracle : (independent of the model) ping and speed-test cells sent into a plain circuit of 1..3 hops and into a
+         linked e2e circuit (both directions) reach the far end's handler and the pong / response comes back to the
+         sender's request cache, attributed to that circuit; bytes handed to the exit socket equal the bytes sent and go to the given
          destination; bytes returned arrive at the originator's on_raw_data with the outside source as origin
          and the right circuit; the body on link i peels to the plaintext cell with exactly the session keys of
          hops i+1..n (raw SessionKeys, not ipv8 code) and is 24 bytes longer than on link i+1; neither the
@@ -377,6 +379,7 @@ async def plain_scenarios(ctx, run, r):
             ctx.violation("ping/not-intact", "ping %d over %d hops: handlers entered %s" % (ident, h, [x[1] for x in hs]), m)
         ctx.count(("ping", h), nontrivial=True)
         stats["ping"] += 1
+        stats["cell_kinds_ok"] = stats.get("cell_kinds_ok", 0) + await cell_kinds(ctx, run, r, tn.origin, c, path[-1][0], "plain %d-hop" % h)
         # returned IPv8-shaped data: own prefix -> re-injected with the circuit id; foreign prefix -> dropped here
         own = tn.prefix() + bytes([254]) + r.randbytes(12)
         await honest_backward(run, c, path, ("198.51.100.7", 7), own, {"kind": "backward", "hops": h, "size": len(own), "shape": "own-ipv8"}, "reinject")
@@ -460,6 +463,62 @@ async def plain_scenarios(ctx, run, r):
     return stats
 
 
+async def cell_kinds(ctx, run, r, a, ca, b, label, sizes=(0, 1, 40, 279)):
+    """request/answer cells sent into circuit ca by its originator a, far end b: ping/pong and speed-test
+    request/response.  What was sent arrives at the far end's handler, the answer comes back to the sender's request
+    cache (which is cleared / whose future is resolved), attributed to circuit ca."""
+    from ipv8.messaging.anonymization.caches import PingRequestCache, TestRequestCache
+    tn = run.tn
+    n_ok = 0
+    for _ in range(2):
+        cache = PingRequestCache(a)
+        a.request_cache.add(cache)
+        meta = {"kind": "cell-kinds", "cell": "ping", "circuit": label}
+        evs = [run.send_ping(a, ca.hop.address, ca.circuit_id, cache.number)]
+        await tn.drain(evs)
+        run.add_all(evs, meta)
+        hs = [(e["node"], rec[1], rec[3], rec[4]) for e in evs for rec in e["records"] if rec[0] == "handler"]
+        ping_in = [h for h in hs if h[1] == 6 and h[0] == b._verif_name and int.from_bytes(h[2][27:29], "big") == cache.number]
+        pong_in = [h for h in hs if h[1] == 7 and h[0] == a._verif_name and int.from_bytes(h[2][27:29], "big") == cache.number
+                   and int.from_bytes(h[2][23:27], "big") == ca.circuit_id]
+        if len(ping_in) != 1:
+            ctx.violation("cell-kinds/ping-not-delivered", "ping over the %s circuit: the far end's ping handler was entered %d times (handlers %s)" % (
+                label, len(ping_in), [(h[0], h[1]) for h in hs]), meta)
+        elif len(pong_in) != 1 or a.request_cache.has(PingRequestCache, cache.number):
+            ctx.violation("cell-kinds/ping-not-answered", "ping over the %s circuit reached %s but no pong for circuit %d came back to %s's request cache "
+                          "(handlers entered %s)" % (label, b._verif_name, ca.circuit_id, a._verif_name, [(h[0], h[1]) for h in hs]), meta)
+            if a.request_cache.has(PingRequestCache, cache.number):
+                a.request_cache.pop(PingRequestCache, cache.number)
+        else:
+            n_ok += 1
+        ctx.count(("cell-kinds", "ping", label, _), nontrivial=True)
+    for n in sizes:
+        cache = TestRequestCache(a, ca)
+        a.request_cache.add(cache)
+        req = r.randbytes(n)
+        meta = {"kind": "cell-kinds", "cell": "test", "circuit": label, "size": n}
+        evs = [run.send_test_request(a, ca.hop.address, ca.circuit_id, cache.number, n, req)]
+        await tn.drain(evs)
+        for _ in range(3):
+            await asyncio.sleep(0)
+        run.add_all(evs, meta)
+        hs = [(e["node"], rec[1], rec[3]) for e in evs for rec in e["records"] if rec[0] == "handler"]
+        rq_in = [h for h in hs if h[1] == 19 and h[0] == b._verif_name and h[2][31:] == req]
+        done = cache.future.done() and not cache.future.cancelled() and cache.future.exception() is None
+        if len(rq_in) != 1:
+            ctx.violation("cell-kinds/test-request-not-delivered", "speed-test request of %d bytes over the %s circuit: far-end handler entered %d times (handlers %s)" % (
+                n, label, len(rq_in), [(h[0], h[1]) for h in hs]), meta)
+        elif not done or len(cache.future.result()[0]) != n or a.request_cache.has(TestRequestCache, cache.number):
+            ctx.violation("cell-kinds/test-request-not-answered", "speed-test request over the %s circuit reached %s but the %d-byte response did not come back to "
+                          "%s's request cache" % (label, b._verif_name, n, a._verif_name), meta)
+        else:
+            n_ok += 1
+        if a.request_cache.has(TestRequestCache, cache.number):
+            a.request_cache.pop(TestRequestCache, cache.number)
+        ctx.count(("cell-kinds", "test", label, n), nontrivial=True)
+    return n_ok
+
+
 def la_lb_guard(ca, cb_):
     """index of the event at the receiving end (after the originating event and one event per relay / rendezvous point)"""
     return len(ca.hops) + len(cb_.hops)
@@ -473,6 +532,8 @@ async def e2e_scenario(ctx, run, r):
     from ipv8.peer import Peer
     tn = run.tn
     seeder, downloader = tn.origin, tn.nodes["relay2"]
+    for ov in (seeder, downloader):
+        ov.settings.peer_flags = set(ov.settings.peer_flags) | {8}      # both ends answer speed tests
     info_hash = bytes(range(20))
     seeder.join_swarm(info_hash, 1, seeding=True)
     downloader.join_swarm(info_hash, 1, seeding=False)
@@ -522,6 +583,11 @@ async def e2e_scenario(ctx, run, r):
         return None
     sc = rp.circuit
     n_ok = 0
+    # request / answer cells over the linked circuit, in both directions
+    kinds_ok = 0
+    for a, ca, b in ((downloader, dc, seeder), (seeder, sc, downloader)):
+        kinds_ok += await cell_kinds(ctx, run, r, a, ca, b, "linked e2e (from the %s)" % ("downloader" if a is downloader else "seeder"))
+    ctx.extra["e2e_cell_kinds_ok"] = kinds_ok
     for a, ca, b, cb_, d_hs in ((downloader, dc, seeder, sc, 1), (seeder, sc, downloader, dc, 0)):
         payloads = [("raw", shaped(r, n, "raw")) for n in ([0, 1, 40, 279, 1000] if ctx.quick else [0, 1, 2, 40, 279, 600, 1000, 1400])]
         # every size below the IPv8 threshold, non-IPv8 payloads around it, and IPv8-shaped payloads (00 01 / 00 02 and at
@@ -668,6 +734,7 @@ async def replay_case(case, verbose=True):
 
     class Sink:
         quick = True
+        extra = {}
 
         def violation(self, key, what, case):
             problems.append((key, what))
@@ -678,7 +745,7 @@ async def replay_case(case, verbose=True):
         def count(self, *a, **k):
             pass
     ctx = Sink()
-    if case.get("e2e") or case.get("kind") == "e2e":
+    if case.get("e2e") or case.get("kind") == "e2e" or (case.get("kind") == "cell-kinds" and "e2e" in str(case.get("circuit"))):
         tn = await make_net(hidden=True)
         run = Run(ctx, tn, "replay")
         try:
@@ -696,6 +763,9 @@ async def replay_case(case, verbose=True):
         size = int(case.get("size", 40))
         data = shaped(r, size)
         dest, source = ("1.2.3.4", 5), ("5.6.7.8", 9)
+        if case.get("kind") == "cell-kinds":
+            await cell_kinds(ctx, run, r, tn.origin, c, path[-1][0], "plain %d-hop" % h)
+            return problems
         if case.get("kind") in ("forward", "backward", "ping", "test") or "link" not in case:
             await honest_forward(run, c, path, dest, data, case)
             await honest_backward(run, c, path, source, shaped(r, size), case)
@@ -764,7 +834,8 @@ def run(ctx):
     in_loop(_run, ctx)
     ctx.coverage["rule"] = ("real nodes: 1 originator, 3 relays, 2 exits, circuits of 1..3 hops alive at the same time; per circuit: payload sizes "
                             "{0,1,2,279,1000,1400} (thorough: 0..1400 step 7) forward (v4/v6/domain destinations) and backward, speed-test request/response, "
-                            "ping/pong, returned IPv8-shaped data (own / foreign prefix); faults per direction and link: every header byte, 64 sampled "
+                            "ping/pong, cell kinds {ping, speed-test} x {plain 1..3 hops, linked e2e both directions} "
+                            "with request-cache oracle, returned IPv8-shaped data (own / foreign prefix); faults per direction and link: every header byte, 64 sampled "
                             "(thorough: all) body bytes, truncation, extension, cross-circuit and reflected splices, injection under fresh keys / unknown id / "
                             "plaintext flag; one end-to-end (rendezvous) circuit pair, both directions: sizes, every size 0..22, "
                             "non-IPv8 and IPv8-shaped payloads (foreign / own prefix), faults on every link; each event is one lockstep case; "
